@@ -48,9 +48,9 @@ def _core(B, model, Mor, n, cplx=False, centred=True):
         tr = np.sum(np.real(Mor * np.conjugate(Mor))) / (n - 1)
         B.eq("(d) total_variance == trace(C)", d["total_variance"].data, tr)
         B.eq("(d) ratio * total_variance == lambda", model.explained_variance_ratio().data * d["total_variance"].data, ev)
-    B.ge("(d) explained variance non-negative", ev, np.zeros(k))
+    B.ge("(d) explained variance non-negative", ev, np.zeros(k), products=True)
     if k > 1:
-        B.ge("(d) explained variance non-increasing", ev[:-1], ev[1:])
+        B.ge("(d) explained variance non-increasing", ev[:-1], ev[1:], products=True)
     R = Mor - S @ ctranspose(V)
     B.eq("(e) S^H (M - S V^H) == 0", ctranspose(S) @ R, np.zeros((k, Mor.shape[1])))
 
@@ -112,7 +112,7 @@ def h_eeof(B, n=5, p=2, k=2, tau=1, embedding=2, flags=None):
     B.eq("(d) total_variance == trace(C)", d["total_variance"].data, np.sum(E * E) / (rows - 1))
     B.eq("(e) E V == scores", E @ Vm, S)
     if kk > 1:
-        B.ge("(d) explained variance non-increasing", ev[:-1], ev[1:])
+        B.ge("(d) explained variance non-increasing", ev[:-1], ev[1:], products=True)
 
 
 def configs(tier):
